@@ -17,6 +17,17 @@ def _is_opaque_arr(v):
 def _binop(interp, opn, a, b, node):
     if _is_opaque_arr(a) or _is_opaque_arr(b):
         if isinstance(a, (VObj, VInt, VReal, VBool)) and isinstance(b, (VObj, VInt, VReal, VBool)):
+            if opn == "Add":
+                # element-wise addition is associative and commutative (float-as-real): nested sums are kept as the sorted
+                # multiset of their operands, so that (a + b) + (c + d) and a + c + b + d are the same term
+                ops = []
+                for x in (a, b):
+                    ops.extend(getattr(x, "add_ops", None) or [x])
+                ops.sort(key=lambda x: E._arg_term(interp, x).sexpr())
+                interp.ctx.assumed.add("float-as-real: element-wise array addition is associative and commutative")
+                r = interp.born(opaque(interp, f"op.Sum{len(ops)}", ops, None, "ndarray"))
+                r.add_ops = ops
+                return r
             return interp.born(opaque(interp, f"op.{opn}", [a, b], None, "ndarray"))
     return None
 
@@ -136,12 +147,18 @@ def _raw_hist(interp, args, kwargs, node):
         return res
     # (h.astype(np.float64) + c) / (np.sum(h) + 2*c)
     c = to_real(pc)
-    if z3.is_app(num) and num.decl().name().startswith("op.Add") and z3.is_app(den) and den.decl().name().startswith("op.Add"):
-        a0, a1 = num.children()
-        d0, d1 = den.children()
-        if z3.is_app(a0) and a0.decl().name().startswith("ndarray.astype") and z3.eq(z3.simplify(a1), z3.simplify(c)) \
+    is_sum = lambda t_: z3.is_app(t_) and (t_.decl().name().startswith("op.Add") or t_.decl().name().startswith("op.Sum2"))
+    if is_sum(num) and is_sum(den):
+        def split(t_, prefix):
+            x, y = t_.children()
+            if z3.is_app(y) and y.decl().name().startswith(prefix):
+                x, y = y, x
+            return x, y         # (the library term, the scalar)
+        a0, a1 = split(num, "ndarray.astype")
+        d0, d1 = split(den, "numpy.sum")
+        if z3.is_app(a0) and a0.decl().name().startswith("ndarray.astype") and a1.sort() == c.sort() and z3.eq(z3.simplify(a1), z3.simplify(c)) \
                 and z3.is_app(d0) and d0.decl().name().startswith("numpy.sum") and z3.eq(d0.children()[0], a0.children()[0]) \
-                and z3.eq(z3.simplify(d1), z3.simplify(2 * c)):
+                and d1.sort() == c.sort() and z3.eq(z3.simplify(d1), z3.simplify(2 * c)):
             return VObj("ndarray", a0.children()[0])
     return res
 
@@ -350,7 +367,7 @@ E.HOOKS["slice"].append(_str_slice)
 @method("list", "get_indexer")
 def _list_get_indexer(interp, sv, args, kwargs, node):
     """Index.get_indexer(labels): positions of the labels in the index (-1 for absent labels)"""
-    return interp.born(opaque(interp, "Index.get_indexer", [VObj("object", z3.Const(f"index:{id(sv) % 100000}", OBJ))] + list(args), kwargs, "ndarray"))
+    return interp.born(opaque(interp, "Index.get_indexer", [VObj("object", z3.Const(getattr(sv, "index_of", None) or f"index:{id(sv) % 100000}", OBJ))] + list(args), kwargs, "ndarray"))
 
 
 @S.spec("bag_is_empty")
@@ -360,3 +377,13 @@ def _bag_is_empty(interp, args, kwargs, node):
     if not bag.sites:
         return VBool(True)
     return VBool(z3.Not(z3.Or(*[z3.Exists(s.all_vars(), s.full_cond()) if s.all_vars() else s.full_cond() for s in bag.sites])))
+
+
+@S.spec("set_column")
+def _set_column(interp, args, kwargs, node):
+    """set_column(A, j, v): the array A after A[:, j] = v (functional form of the in-place assignment)"""
+    A, j, v = args
+    sl = VObj("slice", opaque(interp, "slice", [NONE, NONE, NONE], None, "slice").term)
+    sl.parts = [NONE, NONE, NONE]
+    idx = VTuple([sl, j])
+    return interp.born(opaque(interp, "setitem", [VObj(A.tag, A.term), idx, v], None, A.tag))
